@@ -3,6 +3,7 @@ package wm
 import (
 	"fmt"
 	"go/token"
+	"go/types"
 
 	"golang.org/x/tools/go/ssa"
 )
@@ -262,41 +263,13 @@ func runC12(c *Check) {
 	c.Floor(P+".O3", "retry counter compared with MaxRetries", decided, 1)
 
 	// O4 wait before retry
-	var sels []*ssa.Select
-	AllInstrs(I, func(in ssa.Instruction) {
-		if s, ok := in.(*ssa.Select); ok {
-			sels = append(sels, s)
-		}
-	})
-	var waitSel *ssa.Select
 	var nextBackoff ssa.Value
-	for _, s := range sels {
-		okShape := s.Blocking && len(s.States) == 2
-		doneIdx, timeIdx := -1, -1
-		if okShape {
-			for i, st := range s.States {
-				if st.Dir != 2 { // types.RecvOnly
-					okShape = false
-				}
-				if cl, ok := firstOrigin(st.Chan).(*ssa.Call); ok {
-					switch CalleeName(cl) {
-					case nCtxDone:
-						doneIdx = i
-					case nTimeAfter:
-						timeIdx = i
-					}
-				}
-			}
-		}
-		if !okShape || doneIdx < 0 || timeIdx < 0 {
-			continue
-		}
-		waitSel = s
-		k := "retry wait select"
-		// ctx provenance
-		done := firstOrigin(s.States[doneIdx].Chan).(*ssa.Call)
+	waits := c12FindWaits(I)
+	for _, w := range waits {
+		k := "retry wait"
+		s := w.site
 		nTimeout := 0
-		okCtx := AllOrigins(done.Call.Value, func(v ssa.Value) bool {
+		okCtx := AllOrigins(w.ctx, func(v ssa.Value) bool {
 			if cl, ok := v.(*ssa.Call); ok && CalleeName(cl) == nContext && m.IsMsg(Receiver(cl)) {
 				return true
 			}
@@ -323,10 +296,9 @@ func runC12(c *Check) {
 			}
 			return false
 		})
-		c.Report(nTimeout > 0, P+".O4", "WAIT-MAX-ELAPSED", I, s.Pos(), k, "MaxElapsedTime (when > 0) bounds the waiting through WithTimeout on the context the select listens on")
+		c.Report(nTimeout > 0, P+".O4", "WAIT-MAX-ELAPSED", I, s.Pos(), k, "MaxElapsedTime (when > 0) bounds the waiting through WithTimeout on the context the wait listens on")
 		c.Report(okCtx, P+".O4", "WAIT-CTX", I, s.Pos(), k, "the wait ends early on the message context, or on WithTimeout(message context, MaxElapsedTime) taken only when MaxElapsedTime > 0")
-		ta := firstOrigin(s.States[timeIdx].Chan).(*ssa.Call)
-		nb, okNB := firstOrigin(ta.Call.Args[0]).(*ssa.Call)
+		nb, okNB := firstOrigin(w.dur).(*ssa.Call)
 		okNB = okNB && CalleeName(nb) == "(*"+backoffPkg+".ExponentialBackOff).NextBackOff"
 		c.Report(okNB, P+".O4", "WAIT-DURATION", I, s.Pos(), k, "the wait lasts the back-off object's NextBackOff()")
 		if okNB {
@@ -334,35 +306,23 @@ func runC12(c *Check) {
 			c.Report(nb.Block() == s.Block() || !ReachWithout(s, s, nb), P+".O4", "WAIT-FRESH-DURATION", I, nb.Pos(), k, "NextBackOff() is taken anew for every wait")
 			c12Backoff(c, P, I, Receiver(nb))
 		}
-		// the in-loop call is reached only through the timer case, and every iteration passes the select
-		var timeEdges, doneEdges []Edge
-		for _, t := range Tests(I) {
-			e, ok := t.X.(*ssa.Extract)
-			if !ok || e.Tuple != ssa.Value(s) || e.Index != 0 || t.Op != token.EQL {
-				continue
-			}
-			if n, ok := IntConst(t.Y); ok {
-				if int(n) == timeIdx {
-					timeEdges = append(timeEdges, t.True)
-				}
-				if int(n) == doneIdx {
-					doneEdges = append(doneEdges, t.True)
-				}
-			}
-		}
 		for _, hc := range inLoop {
-			c.Report(len(timeEdges) > 0 && GuardedBy(I, hc, timeEdges), P+".O4", "RETRY-ONLY-AFTER-WAIT", I, hc.Pos(), "in-loop handler call", "a retry happens only after the back-off timer fired")
-			c.Report(!ReachWithout(hc, hc, s), P+".O4", "WAIT-EVERY-ITERATION", I, hc.Pos(), "in-loop handler call", "between two retries the wait select is always executed")
+			c.Report(len(w.timeEdges) > 0 && GuardedBy(I, hc, w.timeEdges), P+".O4", "RETRY-ONLY-AFTER-WAIT", I, hc.Pos(), "in-loop handler call", "a retry happens only after the back-off timer fired")
+			c.Report(!ReachWithout(hc, hc, s), P+".O4", "WAIT-EVERY-ITERATION", I, hc.Pos(), "in-loop handler call", "between two retries the wait is always executed")
 		}
-		for _, e := range doneEdges {
+		for _, e := range w.doneEdges {
 			re := ReachEdge(e, nil)
 			c.Report(!reachesAny(re, m.HCalls), P+".O4", "GIVE-UP-ON-CTX", I, s.Pos(), k, "when the context ends no further attempt is made")
 		}
-		c.Floor(P+".O4", "edge of the timer case", len(timeEdges), 1)
-		c.Floor(P+".O4", "edge of the ctx.Done() case", len(doneEdges), 1)
+		c.Floor(P+".O4", "edge of the timer case", len(w.timeEdges), 1)
+		c.Floor(P+".O4", "edge of the ctx.Done() case", len(w.doneEdges), 1)
+		if w.helper != nil {
+			c.Use(P+".O4", w.helper, "wait helper")
+			c.Report(w.helperOK, P+".O4", "WAIT-HELPER-SHAPE", w.helper, w.helper.Pos(), "wait helper", "the wait helper is a blocking select over exactly {its context's Done(), a timer of its duration} that reports the timer case as nil and the context case as non-nil")
+		}
 	}
-	if waitSel == nil {
-		c.Floor(P+".O4", "blocking select over exactly {ctx.Done(), time.After(…)} in the retry loop", 0, 1)
+	if len(waits) == 0 {
+		c.Floor(P+".O4", "blocking wait over exactly {ctx.Done(), timer(back-off)} in the retry loop (inline select or helper)", 0, 1)
 	}
 
 	// O5 hook
@@ -385,11 +345,31 @@ func runC12(c *Check) {
 
 func c12Backoff(c *Check, P string, I *ssa.Function, b ssa.Value) {
 	nb, ok := firstOrigin(b).(*ssa.Call)
+	// the object may be built by an in-package helper from the Retry fields
+	var helper *ssa.Function
+	var helperCall *ssa.Call
+	if ok && CalleeName(nb) != backoffPkg+".NewExponentialBackOff" {
+		if H := CalleeFn(&nb.Call); H != nil && H.Pkg == I.Pkg && len(H.Blocks) > 0 {
+			for _, vals := range ReturnValues(H, 0) {
+				for _, v := range vals {
+					if inner, isC := v.(*ssa.Call); isC && CalleeName(inner) == backoffPkg+".NewExponentialBackOff" {
+						helper, helperCall = H, nb
+						nb = inner
+					}
+				}
+			}
+		}
+	}
 	if !ok || CalleeName(nb) != backoffPkg+".NewExponentialBackOff" {
 		c.Report(false, P+".O4", "BACKOFF-OBJECT", I, b.Pos(), "back-off object", "the back-off object is a fresh backoff.NewExponentialBackOff() per invocation")
 		return
 	}
-	c.Report(!InLoop(nb), P+".O4", "BACKOFF-OBJECT", I, nb.Pos(), "back-off object", "one back-off object per invocation (intervals grow across retries)")
+	site := ssa.Instruction(nb)
+	if helperCall != nil {
+		site = helperCall
+		c.Use(P+".O4", helper, "back-off construction helper")
+	}
+	c.Report(!InLoop(site) && site.Parent() == I, P+".O4", "BACKOFF-OBJECT", I, site.Pos(), "back-off object", "one back-off object per invocation, created inside the per-message closure (intervals grow across retries, nothing is shared between messages)")
 	want := map[string]bool{"InitialInterval": false, "MaxInterval": false, "Multiplier": false, "MaxElapsedTime": false, "RandomizationFactor": false}
 	for _, ref := range *nb.Referrers() {
 		fa, ok := ref.(*ssa.FieldAddr)
@@ -402,9 +382,18 @@ func c12Backoff(c *Check, P string, I *ssa.Function, b ssa.Value) {
 			if !ok || st.Addr != ssa.Value(fa) {
 				continue
 			}
-			src := LoadedField(firstOrigin(st.Val))
+			val := st.Val
+			if helper != nil {
+				// a parameter of the helper: take the argument at the call site
+				for i, p := range helper.Params {
+					if AllOrigins(st.Val, IsParam(p)) && i < len(helperCall.Call.Args) {
+						val = helperCall.Call.Args[i]
+					}
+				}
+			}
+			src := LoadedField(firstOrigin(val))
 			okCopy := src != nil && src.Name() == f.Name() && src.Exported()
-			c.Report(okCopy, P+".O4", "BACKOFF-FIELD", I, st.Pos(), "backoff."+f.Name(), "the back-off parameter "+f.Name()+" is copied from the Retry field of the same name")
+			c.Report(okCopy, P+".O4", "BACKOFF-FIELD", st.Parent(), st.Pos(), "backoff."+f.Name(), "the back-off parameter "+f.Name()+" is copied from the Retry field of the same name")
 			if okCopy {
 				want[f.Name()] = true
 			}
@@ -412,10 +401,9 @@ func c12Backoff(c *Check, P string, I *ssa.Function, b ssa.Value) {
 	}
 	for n, ok := range want {
 		if !ok {
-			c.Report(false, P+".O4", "BACKOFF-FIELD", I, nb.Pos(), "backoff."+n, "the back-off parameter "+n+" is configured from the Retry value")
+			c.Report(false, P+".O4", "BACKOFF-FIELD", I, site.Pos(), "backoff."+n, "the back-off parameter "+n+" is configured from the Retry value")
 		}
 	}
-	// Reset before the loop is optional; nothing else may mutate the object
 }
 
 func reachesAny(set InstrSet, cs []ssa.CallInstruction) bool {
@@ -455,4 +443,127 @@ func negOp(op token.Token) token.Token {
 		return token.NEQ
 	}
 	return op
+}
+
+// c12Wait describes the wait between retries: an inline select in the
+// middleware closure, or a call of an in-package helper wait(ctx, d) error.
+type c12Wait struct {
+	site      ssa.Instruction
+	ctx, dur  ssa.Value
+	timeEdges []Edge
+	doneEdges []Edge
+	helper    *ssa.Function
+	helperOK  bool
+}
+
+// selectOverCtxAndTimer recognises `select { case <-ctx.Done(): … case <-time.After(d) | timer.C: … }`.
+func selectOverCtxAndTimer(s *ssa.Select) (ctx, dur ssa.Value, doneIdx, timeIdx int, ok bool) {
+	doneIdx, timeIdx = -1, -1
+	if !s.Blocking || len(s.States) != 2 {
+		return
+	}
+	for i, st := range s.States {
+		if st.Dir != types.RecvOnly {
+			return
+		}
+		o := firstOrigin(st.Chan)
+		if cl, isCall := o.(*ssa.Call); isCall {
+			switch CalleeName(cl) {
+			case nCtxDone:
+				doneIdx, ctx = i, cl.Call.Value
+			case nTimeAfter:
+				timeIdx, dur = i, cl.Call.Args[0]
+			}
+			continue
+		}
+		// timer.C of time.NewTimer(d)
+		if f := LoadedField(o); f != nil && f.Name() == "C" && f.Pkg() != nil && f.Pkg().Path() == "time" {
+			if u, isU := o.(*ssa.UnOp); isU {
+				if _, base := FieldOf(u.X); base != nil {
+					if nt, isNT := firstOrigin(base).(*ssa.Call); isNT && CalleeName(nt) == "time.NewTimer" {
+						timeIdx, dur = i, nt.Call.Args[0]
+					}
+				}
+			}
+		}
+	}
+	ok = doneIdx >= 0 && timeIdx >= 0
+	return
+}
+
+func selectCaseEdges(fn *ssa.Function, s *ssa.Select, idx int) []Edge {
+	var out []Edge
+	for _, t := range Tests(fn) {
+		e, ok := t.X.(*ssa.Extract)
+		if !ok || e.Tuple != ssa.Value(s) || e.Index != 0 || t.Op != token.EQL {
+			continue
+		}
+		if n, ok := IntConst(t.Y); ok && int(n) == idx {
+			out = append(out, t.True)
+		}
+	}
+	return out
+}
+
+func c12FindWaits(I *ssa.Function) []c12Wait {
+	var out []c12Wait
+	AllInstrs(I, func(in ssa.Instruction) {
+		switch x := in.(type) {
+		case *ssa.Select:
+			ctx, dur, di, ti, ok := selectOverCtxAndTimer(x)
+			if !ok {
+				return
+			}
+			out = append(out, c12Wait{site: x, ctx: ctx, dur: dur, timeEdges: selectCaseEdges(I, x, ti), doneEdges: selectCaseEdges(I, x, di)})
+		case *ssa.Call:
+			H := CalleeFn(&x.Call)
+			if H == nil || H.Pkg != I.Pkg || len(H.Blocks) == 0 || H.Signature.Results().Len() != 1 || !IsErrorType(H.Signature.Results().At(0).Type()) {
+				return
+			}
+			for _, si := range Selects(H) {
+				ctx, dur, di, ti, ok := selectOverCtxAndTimer(si.Sel)
+				if !ok {
+					continue
+				}
+				// both operands are parameters of the helper
+				var ctxArg, durArg ssa.Value
+				for i, p := range H.Params {
+					if i >= len(x.Call.Args) {
+						break
+					}
+					if AllOrigins(ctx, IsParam(p)) {
+						ctxArg = x.Call.Args[i]
+					}
+					if AllOrigins(dur, IsParam(p)) {
+						durArg = x.Call.Args[i]
+					}
+				}
+				if ctxArg == nil || durArg == nil {
+					continue
+				}
+				// helper result: nil exactly on the timer case
+				te, de := selectCaseEdges(H, si.Sel, ti), selectCaseEdges(H, si.Sel, di)
+				okH := len(te) > 0 && len(de) > 0 && len(BlockingOps(H)) == 1
+				for _, r := range Returns(H) {
+					if RetNil(r, 0) {
+						if !GuardedBy(H, r, te) {
+							okH = false
+						}
+					} else if !GuardedBy(H, r, de) {
+						okH = false
+					} else {
+						for _, o := range Origins(r.Results[0]) {
+							if IsNilConst(o) {
+								okH = false
+							}
+						}
+					}
+				}
+				isRes := func(v ssa.Value) bool { return AllOrigins(v, func(o ssa.Value) bool { return o == ssa.Value(x) }) }
+				timeE, doneE := NilEdges(I, isRes)
+				out = append(out, c12Wait{site: x, ctx: ctxArg, dur: durArg, timeEdges: timeE, doneEdges: doneE, helper: H, helperOK: okH})
+			}
+		}
+	})
+	return out
 }
